@@ -33,6 +33,13 @@ fn more_valid_inputs() -> Vec<Input> {
     out
 }
 
+/// the complete 1-edit neighbourhood of one small valid document (valid and invalid files alike)
+fn edited_inputs() -> Vec<Input> {
+    use crate::bytespace::{Edits, InputSpace};
+    let e = Edits::new(vec![b"<a x=\"1\"><b/>t</a>\n".to_vec()], false);
+    (0..e.len()).map(|i| Input::File(format!("edit-{}", i), e.get(i))).collect()
+}
+
 fn inputs() -> Vec<Input> {
     vec![
         Input::File(s("valid-small"), b"<a b=\"c\">d</a>".to_vec()),
@@ -57,7 +64,7 @@ fn inputs() -> Vec<Input> {
 const PARSERS: &[Option<&str>] = &[None, Some("quick-xml-de"), Some("serde-xml-rs")];
 const DERIVES: &[Option<&str>] = &[None, Some("Debug"), Some(""), Some("Clone, Debug"), Some("Debug,Clone"), Some(" Debug , Clone,")];
 const SORTS: &[Option<&str>] = &[None, Some("unsorted"), Some("name")];
-const OUTPUTS: &[&str] = &["stdout", "new-file", "existing-file", "missing-directory", "is-directory"];
+const OUTPUTS: &[&str] = &["stdout", "new-file", "existing-file", "missing-directory", "is-directory", "existing-file-same-length"];
 const HEADER: &str = "use serde::{Deserialize, Serialize};\n\n";
 /// longer than any rendering of the inputs, so that a missing truncation shows
 const OLD_CONTENT: &[u8] = &[b'/'; 6000];
@@ -157,6 +164,14 @@ fn run_case(ctx: &Ctx, bin: &Path, all: &[Input], idx: u64, work: &Path) -> Vec<
             let _ = Command::new("touch").args(["-d", "2001-01-01 00:00:00"]).arg(&p).status();
             Some(p)
         }
+        "existing-file-same-length" => {
+            // an existing file of exactly the length of the expected output, with other content
+            let p = dir.join("out.rs");
+            let len = expected_text(input, PARSERS[c.parser], DERIVES[c.derive], SORTS[c.sort]).map(|t| t.len()).unwrap_or(OLD_CONTENT.len());
+            let _ = std::fs::write(&p, vec![b'#'; len]);
+            let _ = Command::new("touch").args(["-d", "2001-01-01 00:00:00"]).arg(&p).status();
+            Some(p)
+        }
         "missing-directory" => Some(dir.join("no/such/dir/out.rs")),
         _ => {
             let p = dir.join("outdir");
@@ -191,7 +206,7 @@ fn run_case(ctx: &Ctx, bin: &Path, all: &[Input], idx: u64, work: &Path) -> Vec<
     };
     let code = output.status.code();
     let stdout = output.stdout.clone();
-    let creatable = matches!(OUTPUTS[c.output], "stdout" | "new-file" | "existing-file");
+    let creatable = matches!(OUTPUTS[c.output], "stdout" | "new-file" | "existing-file" | "existing-file-same-length");
     match (&want, creatable) {
         (Some(text), true) => {
             if code != Some(0) {
@@ -234,9 +249,9 @@ fn run_case(ctx: &Ctx, bin: &Path, all: &[Input], idx: u64, work: &Path) -> Vec<
                             bad("output-created", "the output file was created although the input was at fault".into());
                         }
                     }
-                    "existing-file" => {
+                    "existing-file" | "existing-file-same-length" => {
                         let p = out_path.as_ref().unwrap();
-                        let same = std::fs::read(p).map(|b| b == OLD_CONTENT).unwrap_or(false);
+                        let same = std::fs::read(p).map(|b| b == OLD_CONTENT || b.iter().all(|x| *x == b'#')).unwrap_or(false);
                         let mtime_after = std::fs::metadata(p).ok().and_then(|m| m.modified().ok());
                         if !same || mtime_after != mtime_before {
                             bad("output-modified", "the existing output file was modified although the input was at fault".into());
@@ -271,7 +286,7 @@ pub fn run(ctx: &Ctx) {
             ctx.report_all(vs);
             acc.0 += 1;
             let c = decode(i, all.len());
-            if expected_text(&all[c.input], PARSERS[c.parser], DERIVES[c.derive], SORTS[c.sort]).is_none() || c.output >= 3 {
+            if expected_text(&all[c.input], PARSERS[c.parser], DERIVES[c.derive], SORTS[c.sort]).is_none() || c.output == 3 || c.output == 4 {
                 acc.1 += 1;
             }
             if ctx.sample_hash_qualifies(i) {
@@ -307,10 +322,31 @@ pub fn run(ctx: &Ctx) {
             *acc += 1;
         },
     );
+    // third part: every 1-edit variant of a valid document, default flags, stdout and new file
+    let edited = edited_inputs();
+    let res3 = par_for(
+        edited.len() as u64 * 2,
+        ctx.threads,
+        8,
+        Some(ctx.deadline),
+        |_| 0u64,
+        |acc, k| {
+            let input_idx = (k / 2) as usize;
+            // index in the full product: parser 0, derive 0, sort 0, output k % 2
+            let idx = (input_idx as u64) * (PARSERS.len() * DERIVES.len() * SORTS.len() * OUTPUTS.len()) as u64 + (k % 2);
+            let vs = run_case(ctx, &bin, &edited, idx, &work);
+            for mut v in vs {
+                v.replay = json!({"index": idx, "input_set": "edited"});
+                ctx.report(v);
+            }
+            *acc += 1;
+        },
+    );
     let _ = std::fs::remove_dir_all(&work);
-    ctx.set("evaluations", json!(res.processed + res2.processed));
+    ctx.set("edited_inputs", json!({"inputs": edited.len(), "runs": res3.processed}));
+    ctx.set("evaluations", json!(res.processed + res2.processed + res3.processed));
     ctx.set("distinct_nontrivial", json!(res.accs.iter().map(|a| a.1).sum::<u64>()));
-    ctx.set("exhaustive", json!(res.complete && res2.complete));
+    ctx.set("exhaustive", json!(res.complete && res2.complete && res3.complete));
     ctx.set("further_valid_inputs", json!({"inputs": extra.len(), "runs": res2.processed, "flags": "parser x sort, derive default, output stdout / new file"}));
     ctx.set("inputs", json!(all.iter().map(name_of).collect::<Vec<_>>()));
     ctx.set("dimensions", json!({"inputs": all.len(), "parser": PARSERS.len(), "derive": DERIVES.len(), "sort": SORTS.len(), "output": OUTPUTS.len()}));
@@ -327,7 +363,11 @@ pub fn replay(ctx: &Ctx, case: &Value) {
         return ctx.machinery_error(format!("{} is missing", bin.display()));
     }
     let work = PathBuf::from(format!("{}/work/c12-replay-{}", ctx.verif_dir, std::process::id()));
-    let all = if case.get("input_set").and_then(|x| x.as_str()) == Some("extra") { more_valid_inputs() } else { inputs() };
+    let all = match case.get("input_set").and_then(|x| x.as_str()) {
+        Some("extra") => more_valid_inputs(),
+        Some("edited") => edited_inputs(),
+        _ => inputs(),
+    };
     let idx = case["index"].as_u64().unwrap_or(0);
     let a = run_case(ctx, &bin, &all, idx, &work);
     let b = run_case(ctx, &bin, &all, idx, &work);
